@@ -67,6 +67,23 @@ def build(ctx):
              subs=[('R17', r'numBuffers\(\)', 'self->buffersPos_', 1),
                    ('R7', r'pos_\.load\(std::memory_order_relaxed\)', 'self->pos_', 1),
                    ('R11', r'(?<![\w.>])kBufferSize\b', 'self->kBufferSize')])
+    p = r.function(F, r'friend\s+void\s+swap\s*\([^)]*\)\s*noexcept', within=CLS)
+    ctx.emit('Arena_swap.body.inc', p, must_fire=['R7', 'R17'],
+             subs=[('R1', r'using\s+std::swap;', '', 1),
+                   ('R7', r'(lhs|rhs)\.(pos_|allocatedSize_)\.load\(std::memory_order_(\w+)\)', r'A_LOADI(\1->\2, MO_\3)'),
+                   ('R7', r'(lhs|rhs)\.buffers_\.load\(std::memory_order_(\w+)\)', r'A_LOADI(\1->buffers_table, MO_\2)'),
+                   ('R7', r'(lhs|rhs)\.(pos_|allocatedSize_)\.store\(', r'A_STOREI(\1->\2, '),
+                   ('R7', r'(lhs|rhs)\.buffers_\.store\(', r'A_STOREI(\1->buffers_table, '),
+                   ('R7', r'std::memory_order_(\w+)', r'MO_\1'),
+                   ('R9', r'T\*\*\s+const\s+rhs_buffers', 'const Index rhs_buffers', 1),
+                   ('R17', r'(?<![\w.>])swap\((lhs)\.(\w+),\s*(rhs)\.(\w+)\);', r'SWAP_Index(&lhs->\2, &rhs->\4);'),
+                   ('R8', r'\b(lhs|rhs)\.(?=\w)', r'\1->', 'opt')])
+    # the data members of the class must be exactly the ones the rendering knows (a new member would need a new SAME() clause)
+    import re
+    cls = r.function(F, CLS)
+    members = re.findall(r'^\s*(?:std::mutex|Index|std::atomic<[^;]*>|std::vector<[^;]*>)\s+(\w+_|k\w+);', cls.text, re.M)
+    if sorted(members) != sorted(['resizeMutex_', 'kLog2BuffSize', 'kBufferSize', 'kMask', 'pos_', 'allocatedSize_', 'buffers_', 'buffersSize_', 'buffersPos_', 'deleteLater_']):
+        raise X.ExtractionError('ConcurrentObjectArena data members changed: %r' % members)
     S = 'specs/c37_arena.c'
     units = [
         Unit('log2i', 'cbmc', S, 'log2i', unwind=66, expect=[r'postcondition'], assumptions=['log2i loop bounded by the constant 64 (bit width): unwound completely']),
@@ -76,5 +93,6 @@ def build(ctx):
         Unit('copy_ctor', 'cbmc', S, 'Arena_copy_ctor', loop_contracts=True, expect=[r'postcondition\.3', r'G_read_table\.assertion'], timeout=300,
              replay=dict(prog='replay/c37_replay.cpp', args=lambda ce, u: ['copy'], cxxflags=['-fsanitize=address'], no_rlimit=True)),
         Unit('getBufferSize', 'cbmc', S, 'Arena_getBufferSize', expect=[r'postcondition\.2', r'assertion']),
+        Unit('swap', 'cbmc', S, 'Arena_swap', expect=[r'postcondition\.1']),
     ]
     return units
